@@ -269,7 +269,9 @@ def run(ctx):
     if failing:
         # every failing schedule is forced once more (twice if need be) and has to fail again:
         # a schedule is a real-time affair, a verdict needs the failure twice
-        idx = sorted(failing)[:400]
+        idx = sorted(failing)
+        if len(idx) > 150:
+            idx = idx[::len(idx) // 150 + 1]
         again = set()
         for attempt in range(2):
             todo = [k for k in idx if k not in again]
